@@ -264,6 +264,9 @@ ADVERSARIAL_STREAMS = [
     # first documents whose root block is indented by 4 or more columns, with and without leading content
     "    a: 1\n    b: 2\n", "# c\n    a: 1\n    b: 2\n", "     - x\n     - y\n", "---\n    a: 1\n", "\n      k:\n        - 1\n", "# c1\n\n        deep: [1, 2]\n",
     "    a: 1\n---\n    b: 2\n", "    'q'\n", "      # c\n      a: 1\n",
+    # distinct keys that are spelled alike (a number and the string of its digits, a boolean / null and its quoted spelling): every entry stays
+    "1: a\n\"1\": b\n", "true: x\n\"true\": y\n'true': z\n", "~: n\n\"~\": s\nnull: m\n", "m: {1: a, '1': b, 1.0: c}\n", "- {0x10: h, \"0x10\": s}\n- {yes: y, \"yes\": q}\n",
+    "k:\n  2: two\n  \"2\": deux\n  !!str 2: zwei\n",
     # explicitly tagged scalars in every quoting style, with text whose type changes when the tag is lost
     "- !!int \"123\"\n- !!int '123'\n- !!null \"\"\n- !!null ''\n- !!bool 'true'\n- !!bool \"false\"\n- !!float \"1.5\"\n- !!str \"x\"\n- !!str 'y'\n- !!str 12\n",
     "a: !!int \"0x1F\"\nb: !!float '1e3'\nc: !!null \"~\"\nd: !custom \"q\"\ne: !custom 'q'\nf: !!binary \"aGk=\"\n", "k: !!str |\n  lit\nm: !!str >\n  fold\n",
